@@ -111,11 +111,13 @@ func (a *AgentService) SendResponse(AgentInfo any, Header agent.Header) []byte {
 
     logger.Debug(AgentResponse)
 
+    a.client.ResponsesMtx.Lock()
     if a.client.Responses == nil {
         a.client.Responses = make(map[string]chan []byte)
     }
 
     a.client.Responses[randID] = make(chan []byte)
+    a.client.ResponsesMtx.Unlock()
 
     a.client.Mutex.Lock()
     err := a.client.Conn.WriteJSON(AgentResponse)
@@ -127,7 +129,10 @@ func (a *AgentService) SendResponse(AgentInfo any, Header agent.Header) []byte {
     }
 
     var data []byte
-    if channel, ok := a.client.Responses[randID]; ok {
+    a.client.ResponsesMtx.Lock()
+    channel, ok := a.client.Responses[randID]
+    a.client.ResponsesMtx.Unlock()
+    if ok {
         // the service may disconnect instead of answering: the agent's request must
         // not wait for ever then
         select {
@@ -135,8 +140,10 @@ func (a *AgentService) SendResponse(AgentInfo any, Header agent.Header) []byte {
         case <-a.client.Done:
         }
 
-        close(a.client.Responses[randID])
+        a.client.ResponsesMtx.Lock()
+        close(channel)
         delete(a.client.Responses, randID)
+        a.client.ResponsesMtx.Unlock()
     }
 
     return data
